@@ -157,15 +157,28 @@ pub mod std {
                 // real scope; the reference handed to `f` is shortened accordingly by transmute
                 // because a local cannot be borrowed for the whole of 'scope.
                 let sc_ref: &Scope<'_, 'env> = unsafe { ::std::mem::transmute(&sc) };
-                let r = f(sc_ref);
-                // implicit join of everything spawned in the scope, at simulation level
-                if let Some((sh, me)) = &sc.sim {
-                    let ids: Vec<crate::TaskId> = sc.spawned.lock().unwrap().clone();
-                    for t in ids {
-                        crate::sim_wait_finished(sh, *me, t);
+                // Implicit join of everything spawned in the scope, at simulation level — in a
+                // drop guard, because it must also happen when `f` unwinds: the real scope then
+                // waits for the spawned threads with a real `park`, and a task that parks for
+                // real while it holds the baton stops the whole simulation (found with rewrite
+                // C13-p3-1 under a disk-full fault: its collector panics inside the scope,
+                // which drops the receiver and so releases the workers — if they ever run).
+                struct JoinAll<'a, 'scope, 'env>(&'a Scope<'scope, 'env>);
+                impl Drop for JoinAll<'_, '_, '_> {
+                    fn drop(&mut self) {
+                        if let Some((sh, me)) = &self.0.sim {
+                            let ids: Vec<crate::TaskId> = match self.0.spawned.lock() {
+                                Ok(g) => g.clone(),
+                                Err(p) => p.into_inner().clone(),
+                            };
+                            for t in ids {
+                                crate::sim_wait_finished(sh, *me, t);
+                            }
+                        }
                     }
                 }
-                r
+                let _join_all = JoinAll(sc_ref);
+                f(sc_ref)
             })
         }
 
